@@ -239,6 +239,7 @@ func FactsC04(f *hc.Facts) {
 	// layouts: structured (interpreted by the model) and as call-order strings (pinned in Props)
 	FactsC04Layout(f)
 	FactsC04Msg(f)
+	FactsC04Order(f)
 	f.Raw("def dataEncodeOrder : List String := " + strList(callSeq(f, "crypto", "EncryptedMessageData.Encode", "b")) + " -- EncryptedMessageData.Encode")
 	f.Raw("def dataDecodeOrder : List String := " + strList(decodeSeq(f, "crypto", "EncryptedMessageData.DecodeWithoutCopy")) + " -- EncryptedMessageData.DecodeWithoutCopy")
 	f.Raw("def msgEncodeOrder : List String := " + strList(callSeq(f, "crypto", "EncryptedMessage.Encode", "b")) + " -- EncryptedMessage.Encode")
